@@ -9,6 +9,7 @@
   `checked_*`, `saturating_*`, `Option::expect`, slice indexing).
 -/
 import BS.Impl.Seek
+import BS.Impl.Reader
 
 namespace BS.Gen
 open BS.Impl
@@ -19,6 +20,12 @@ def add (a b : Nat) : R Nat := if a + b < 2^64 then .ok (a + b) else .error .pan
 def sub (a b : Nat) : R Nat := if b ≤ a then .ok (a - b) else .error .panic
 def mul (a b : Nat) : R Nat := if a * b < 2^64 then .ok (a * b) else .error .panic
 def div (a b : Nat) : R Nat := if b = 0 then .error .panic else .ok (a / b)
+
+def add128 (a b : Nat) : R Nat := if a + b < 2^128 then .ok (a + b) else .error .panic
+def mul128 (a b : Nat) : R Nat := if a * b < 2^128 then .ok (a * b) else .error .panic
+
+/-- `u64::try_from(x)` for a wider `x` -/
+def tryU64 (x : Nat) : Option Nat := if x < 2^64 then some x else none
 
 def checkedAdd (a b : Nat) : Option Nat := if a + b < 2^64 then some (a + b) else none
 def checkedSub (a b : Nat) : Option Nat := if b ≤ a then some (a - b) else none
@@ -96,6 +103,9 @@ inductive CatchUp where
   | clear
   | skip (n : Nat)
   | replay (pos : Impl.Pos)
+  | push (ts : Nat) (line : Bytes)            -- `self.data.push_data(ts, line)` of `process`
+  | outTs (ts : Nat)                          -- `timestamps.push(ts)` of the resampling read
+  | outItem (v : Nat)                         -- `data.push(item)` of the resampling read
 deriving Repr, DecidableEq
 
 /-- the cache as `add_missing_data` sees it -/
@@ -103,6 +113,9 @@ structure CacheView where
   bucket_size : Nat
   data : DataView
   lines_to_skip : Nat
+  samples_in_bin : Nat := 0
+  ts_sum : Nat := 0                 -- u128
+  resample_state : Nat := 0         -- the library's u64 `ResampleState` (harness resampler `Lin`)
 
 /-- the part of `Index` the translated functions read -/
 structure Index where
